@@ -99,7 +99,95 @@ def run_one(est_name, max_iter, tol, storage, seed, tid):
     return f.trace(), straces
 
 
+RESOLVE = [("LBFGS", "Logistic", "L2"), ("FISTA", "Quadratic", "L1"), ("GramCD", "None", "L1"),
+           ("AndersonCD", "Quadratic", "L1"), ("ProxNewton", "Logistic", "L1"), ("GroupBCD", "QuadraticGroup", "WeightedGroupL2"),
+           ("MultiTaskBCD", "QuadraticMultiTask", "L2_1"), ("PDCD_WS", "Pinball", "L1")]
+
+
+def run_resolve(comp, seed, tid):
+    """worker: ONE solver object solves two different problems in a row; the history returned by the second solve must
+    describe the second solve only (its own outer iterations, its own objectives)."""
+    from .. import skl  # noqa: F401
+    from .. import tracer as TR
+    s, d, pk = comp
+    rng = gen.rng_for(seed, "resolve", comp)
+    n, p = 30, 10
+    meta = dict(solver=s, datafit=d, penalty=pk, seed=seed, via="same solver object, second solve")
+    auto = TR.AutoTracer(meta=meta).install()
+    exc = None
+    try:
+        kw = dict(tol=1e-12, max_iter=6)
+        slv = skl.solver(s, **kw)
+        for k in range(2):
+            X = np.asfortranarray(rng.standard_normal((n, p)))
+            if d == "Logistic":
+                y = np.sign(rng.standard_normal(n))
+            elif d == "QuadraticMultiTask":
+                y = np.asfortranarray(rng.standard_normal((n, 2)))
+            else:
+                y = rng.standard_normal(n)
+            dfd = None if d == "None" else ({"kind": d, "quantile_level": 0.4} if d == "Pinball" else {"kind": d})
+            if d == "QuadraticGroup":
+                dfd.update(grp_ptr=[0, 3, 6, 10], grp_indices=list(range(p)))
+            pend = {"kind": pk, "alpha": 0.05}
+            if pk == "L1":
+                pend["positive"] = False
+            if pk == "WeightedGroupL2":
+                pend.update(weights=[1.0, 1.0, 1.0], grp_ptr=[0, 3, 6, 10], grp_indices=list(range(p)), positive=False)
+            df = None if dfd is None else skl.datafit(dfd)
+            pen = skl.penalty(pend)
+            if df is not None and hasattr(df, "initialize") and s in ("ProxNewton", "FISTA", "LBFGS", "PDCD_WS"):
+                df.initialize(X, y)
+            with warnings.catch_warnings():
+                warnings.simplefilter("ignore")
+                slv.solve(X, y, df, pen)
+    except Exception as e:  # noqa: BLE001
+        exc = type(e).__name__ + ": " + str(e)[:200]
+    finally:
+        auto.remove()
+    f = rel.Facts(tid, dict(meta, exc=exc))
+    f.flag("resolve_runs", exc is None and len(auto.traces) == 2)
+    out = []
+    for k, t in enumerate(auto.traces):
+        t["id"] = tid * 10 + k
+        t["meta"] = dict(meta, step=k)
+        out.append(t)
+    return f.trace(), out
+
+
 def run_binding(ck, pool, tier, seed):
+    # ---- the same solver object used twice: diagnostics are per solve
+    ritems = [(c, seed, 71000 + i) for i, c in enumerate(RESOLVE)]
+    rres, rerrs = pool.map_grouped("harness.checks.niter", "run_resolve", ritems, key=lambda it: it[0], chunk=1)
+    for it, msg, tb in rerrs:
+        ck.machinery(f"resolve driver failed on {it}: {msg}\n{tb}")
+    if not rerrs:
+        rtraces = [t for r in rres for t in r[1]]
+        try:
+            vr = monitor.validate(rtraces) if rtraces else None
+            vf = rel.judge([r[0] for r in rres])
+        except tlc.TLCError as e:
+            ck.machinery(str(e)[:2000])
+            return
+        ck.add_verdicts(vf)
+        for r in rres:
+            bad = {c for c, _ in vf.bad(r[0]["id"])}
+            ck.clause("resolve_runs", "resolve_runs" not in bad)
+            if "resolve_runs" in bad:
+                ck.machinery(f"resolve driver could not run {r[0]['meta']}")
+        if vr is not None:
+            ck.add_verdicts(vr)
+            for t in rtraces:
+                names = {c for c, _ in vr.bad(t["id"])} & {"hist_len", "hist_value", "hist_last", "hist_ret"}
+                ck.cov["traces_validated_against_impl"] += 1
+                for c in ("hist_len", "hist_value", "hist_last"):
+                    ck.clause(c, c not in names)
+                for c in sorted(names):
+                    m = t["meta"]
+                    ck.violation(c, dict(m, clause=c),
+                                 dict(kind="n_iter", replay_module="harness.checks.niter", property="C17", clause=c,
+                                      resolve=[m["solver"], m["datafit"], m["penalty"]], seed=m["seed"]))
+
     items = []
     tid = 70000
     stor = ("dense", "csc")
@@ -154,6 +242,15 @@ def run_binding(ck, pool, tier, seed):
 
 
 def replay(rp):
+    if rp.get("resolve"):
+        f, st = run_resolve(tuple(rp["resolve"]), rp["seed"], 1)
+        bad = [c for t in st for c, _ in monitor.validate([t]).bad(t["id"])]
+        print("resolve:", rp["resolve"], "verdict:", bad)
+        if rp["clause"] in bad:
+            print(f"REPRODUCED clause={rp['clause']} property={rp['property']}")
+            return 1
+        print("not reproduced on the current tree")
+        return 0
     f, st = run_one(*rp["args"], rp["seed"], 1)
     v = rel.judge([f])
     bad = [c for c, _ in v.bad(1)]
